@@ -576,7 +576,7 @@ func main() {
 		var kind string
 		json.Unmarshal(raw["kind"], &kind)
 		switch kind {
-		case "stability":
+		case "stability", "stability-instance":
 			stability(run, rng, o)
 		case "request":
 			var c caseT
